@@ -36,6 +36,18 @@ def _account_stream(stats, plan, tr):
         stats.probe('mode_' + plan['knobs']['mode'])
         if plan['knobs'].get('filter'):
             stats.probe('filtered_streams')
+        if plan.get('sub') == 'big':
+            size = len(lay['stream'])
+            stats.probe('long_streams')
+            stats.probe('long_stream_64KiB_borders_crossed', size // 65536)
+            stats.__dict__['longest_stream'] = max(stats.__dict__.get('longest_stream', 0), size)
+            stats.probes['longest_stream_octets'] = stats.__dict__['longest_stream']
+            # a border that falls inside a message which holds a start signature before the border
+            for k in range(1, size // 65536 + 1):
+                cutp = k * 65536
+                for sg in lay['segs']:
+                    if sg['start'] < cutp < sg['end'] and sg['bytes'].find(b'BUFR', 1, cutp - sg['start']) > 0:
+                        stats.probe('64KiB_border_inside_a_message_after_an_embedded_signature')
         if plan.get('sub') == 'eof':
             stats.probe('streams_ending_inside_a_message')
             cut = plan['items'][-1]['fault']['cut']
@@ -99,6 +111,8 @@ def _account_stream(stats, plan, tr):
                 stats.probe('data_damage_full_decode_still_ok')
         for ex, st, _v in tr.get('q', []):
             stats.probe('mdq_' + streamsim.expr_class(ex) + '_' + st)
+        for ex, front, _val, err, _exc in tr.get('cli', []):
+            stats.probe('mdq_cli_%s_%s_%s' % (front, streamsim.expr_class(ex), 'err' if err else 'ok'))
 
 
 ASSUME_STREAM = [
@@ -113,11 +127,12 @@ ASSUME_STREAM = [
 def c11(tier):
     return runner.check_main(
         'C11', tier, streamsim, 'streamsim',
-        [('c11', 1400, 40000)],
+        [('c11', 1400, 40000), ('c11-big', 48, 1500)],
         'exploration',
         'seeded streams of 0..8 pool messages x separators (empty, GTS headers, noise, partial signatures, stop '
         'signatures, ...BUF directly before a message) x full/info-only x continue flag x API/CLI front ends x '
-        'metadata filters; a case is one stream; distinct = distinct abstract run shape (sequence of (message '
+        'metadata filters; plus long streams of 66..300 KB (family c11-big: borders of whatever reads the input in '
+        'pieces fall inside messages); a case is one stream; distinct = distinct abstract run shape (sequence of (message '
         'class, separator class) + mode + front end + compiled + filter class); non-trivial = >=2 messages or a '
         'non-empty separator or an embedded start signature',
         ASSUME_STREAM, _account_stream, design_ref='4.2')
@@ -268,7 +283,7 @@ def c13(tier):
 def c08(tier):
     return runner.check_main(
         'C08', tier, histsim, 'histsim',
-        [('c08-each', -1, -1), ('c08', 240, 4000), ('c08-def', 300, 12000, 'defsim')],
+        [('c08-each', -1, -1), ('c08', 160, 4000), ('c08-def', 300, 12000, 'defsim')],
         'exploration',
         'seeded histories biased to compiling clients (cache 0/1/2/8), always containing a pair of messages with the '
         'same descriptor list under table versions where an element differs and messages with marker operators, '
@@ -282,7 +297,7 @@ def c08(tier):
                        '(corpus templates incl. marker operators, synthetic ones); deciding it for all templates is '
                        'translation validation, a different technique'],
         _account_hist, extra_cov=_extra_hist,
-        pool_kwargs=dict(HIST_POOL_THOROUGH, n_ops=500, n_tabled=-1) if tier == 'thorough' else dict(HIST_POOL, n_ops=80, n_tabled=60),
+        pool_kwargs=dict(HIST_POOL_THOROUGH, n_ops=500, n_tabled=-1) if tier == 'thorough' else dict(HIST_POOL, n_ops=60, n_tabled=50),
         design_ref='5.3')
 
 
